@@ -34,6 +34,13 @@ type qDesc struct {
 	Lo   float64    `json:"lo,omitempty"`
 	Hi   float64    `json:"hi,omitempty"`
 	Caps []float64  `json:"caps,omitempty"`
+	// how the direction is derived from Dir before NewRay normalises it: "" as is, "flip" Dir.Flip(),
+	// "scale" Dir.Scale(-1), "sub" Zero.Sub(Dir), "reflect" Dir.Reflect(axis with the largest component)
+	// (vector arithmetic that turns exact zero components into negative zeros)
+	Via string `json:"via,omitempty"`
+	// components of Dir (value 0) that are NEGATIVE zero; kept as indices because a JSON "-0" does not
+	// survive every JSON library (Python reads it as the integer 0)
+	NZ []int `json:"negzero,omitempty"`
 }
 
 type setDesc struct {
@@ -52,9 +59,48 @@ type bvhDesc struct {
 	Lo    float64      `json:"lo"`
 	Hi    float64      `json:"hi"`
 	Seed  int64        `json:"seed"` // math/rand seed: NewBVHTree picks its split axis from the global source
+	Via   string       `json:"via,omitempty"`
+	NZ    []int        `json:"negzero,omitempty"`
 }
 
 func v3(a [3]float64) vector3.Float64 { return vector3.New(a[0], a[1], a[2]) }
+
+// canonNZ moves the sign of zero components of dir into the index list.
+func canonNZ(dir *[3]float64, nz *[]int) {
+	for k := range dir {
+		if dir[k] == 0 && math.Signbit(dir[k]) {
+			dir[k] = 0
+			*nz = append(*nz, k)
+		}
+	}
+}
+
+// dirVia derives the ray direction the way client code does (negating / reflecting a vector).
+func dirVia(a [3]float64, nz []int, via string) vector3.Float64 {
+	for _, k := range nz {
+		if k >= 0 && k < 3 && a[k] == 0 {
+			a[k] = math.Copysign(0, -1)
+		}
+	}
+	v := v3(a)
+	switch via {
+	case "flip":
+		return v.Flip()
+	case "scale":
+		return v.Scale(-1)
+	case "sub":
+		return vector3.Zero[float64]().Sub(v)
+	case "reflect":
+		n := vector3.New(1., 0., 0.)
+		if math.Abs(a[1]) > math.Abs(a[0]) && math.Abs(a[1]) >= math.Abs(a[2]) {
+			n = vector3.New(0., 1., 0.)
+		} else if math.Abs(a[2]) > math.Abs(a[0]) {
+			n = vector3.New(0., 0., 1.)
+		}
+		return v.Reflect(n)
+	}
+	return v
+}
 func vecs(vs [][3]float64) []vector3.Float64 {
 	out := make([]vector3.Float64, len(vs))
 	for i, v := range vs {
@@ -107,6 +153,9 @@ func buildSet(d setDesc) (els []trees.Element, tree *trees.OctTree) {
 func copyInts(x []int) []int { return append([]int{}, x...) }
 
 func octCase(d setDesc) (c hx.Case, st octStats) {
+	for i := range d.Queries {
+		canonNZ(&d.Queries[i].Dir, &d.Queries[i].NZ)
+	}
 	c = hx.Case{Kind: "oct-" + d.Kind, Desc: d}
 	kb, _ := json.Marshal(d)
 	c.Key = string(kb)
@@ -156,7 +205,7 @@ func octCase(d setDesc) (c hx.Case, st octStats) {
 				res := tree.ElementsWithinRange(p, q.D)
 				qs = append(qs, fmt.Sprintf("QWithin %s %s %s", ptCoq(p), hx.CoqZ(mustZ4(q.D)), natList(res)))
 			case "ray":
-				ray := geometry.NewRay(p, v3(q.Dir))
+				ray := geometry.NewRay(p, dirVia(q.Dir, q.NZ, q.Via))
 				res := copyInts(tree.ElementsIntersectingRay(ray, q.Lo, q.Hi))
 				var trav []int
 				tree.TraverseIntersectingRay(ray, q.Lo, q.Hi, func(i int, min, max *float64) { trav = append(trav, i) })
@@ -167,7 +216,7 @@ func octCase(d setDesc) (c hx.Case, st octStats) {
 				qs = append(qs, fmt.Sprintf("QRay %s %s %s %s %s %s %s", ptCoq(p), dvecCoq(ray.Direction()),
 					dyCoq(q.Lo), dyCoq(q.Hi), boolList(elhit), natList(res), natList(trav)))
 			case "trav":
-				ray := geometry.NewRay(p, v3(q.Dir))
+				ray := geometry.NewRay(p, dirVia(q.Dir, q.NZ, q.Via))
 				var res []int
 				tree.TraverseIntersectingRay(ray, q.Lo, q.Hi, func(i int, min, max *float64) {
 					res = append(res, i)
@@ -273,6 +322,7 @@ func octCase(d setDesc) (c hx.Case, st octStats) {
 // running one BVH case
 
 func bvhCase(d bvhDesc) (c hx.Case) {
+	canonNZ(&d.Dir, &d.NZ)
 	c = hx.Case{Kind: "bvh", Desc: d}
 	kb, _ := json.Marshal(d)
 	c.Key = string(kb)
@@ -320,7 +370,7 @@ func bvhCase(d bvhDesc) (c hx.Case) {
 	lb := make([]string, nt)
 	tvs := make([]string, nt)
 	dists := make([]string, nt)
-	tr := rendering.NewTemporalRay(v3(d.O), v3(d.Dir), 0)
+	tr := rendering.NewTemporalRay(v3(d.O), dirVia(d.Dir, d.NZ, d.Via), 0)
 	for t := 0; t < nt; t++ {
 		h := leaves[t]
 		if h == nil {
@@ -376,6 +426,9 @@ func main() {
 		}
 		for _, q := range d.Queries {
 			run.Count("query:" + q.T)
+			if q.T == "ray" || q.T == "trav" {
+				run.Count("ray:" + zeroPattern(dirVia(q.Dir, q.NZ, q.Via)))
+			}
 		}
 	}
 	for _, in := range run.Inputs() {
@@ -419,6 +472,21 @@ func main() {
 	run.Dist["closest:element-point-outside-own-box"] = tot.hypBroken
 	run.Dist["closest:ties"] = tot.ties
 	run.Finish()
+}
+
+// zeroPattern classifies a direction by its zero components and their signs.
+func zeroPattern(v vector3.Float64) string {
+	pz, nz := 0, 0
+	for _, c := range []float64{v.X(), v.Y(), v.Z()} {
+		if c == 0 {
+			if math.Signbit(c) {
+				nz++
+			} else {
+				pz++
+			}
+		}
+	}
+	return fmt.Sprintf("zero-components:+0x%d,-0x%d", pz, nz)
 }
 
 func bucket(n int) int {
